@@ -12,7 +12,7 @@ the translator fails closed.
 import importlib
 import os
 
-PARTS = ["tables", "signatures", "evalprogs", "effects", "regex", "scalars", "scalars_key", "scalars_chord", "defaults"]
+PARTS = ["tables", "signatures", "evalprogs", "effects", "regex", "scalars", "scalars_key", "scalars_chord", "defaults", "segindex"]
 
 
 def write_if_changed(path, text):
